@@ -85,7 +85,26 @@ fn text_oracle(text: &str, ctx: &mut Ctx) {
 
 fn prog_oracle(case: &ProgCase, index: u64, ctx: &mut Ctx) {
     let text = text_of(&case.stmts);
-    analyse(&text, &case.tag, json!({"index": index, "text": text}), ctx);
+    if analyse(&text, &case.tag, json!({"index": index, "text": text}), ctx).is_none() {
+        return;
+    }
+    // the same program with a comment in every gap between two tokens: where the plain layout
+    // is analysed normally, so must this one be (trivia is not part of the program)
+    let toks = print_program(&case.stmts, Parens::Minimal);
+    for sep in ["/*c*/", "//c\n"] {
+        let ctext = layout_uniform(&toks, sep);
+        ctx.count("commented_layout_texts", 1);
+        let t2 = ctext.clone();
+        if let Err(pi) = catch(move || parse_source_string(t2.as_str(), None).any_syntax_errors()) {
+            ctx.fail(Failure {
+                rule: "returns_normally".into(),
+                witness: ctext.clone(),
+                locus: format!("{} | commented layout | {}", pi.locus(), case.tag),
+                detail: format!("semantic analysis panicked at {}:{}: {} (the same program laid out with blanks is analysed normally)", pi.file, pi.line, pi.message.lines().next().unwrap_or("")),
+                case: json!({"index": index, "text": ctext}),
+            });
+        }
+    }
 }
 
 /// Raw statement texts of the wider grammar (constructs outside the claimed grammar of C04,
@@ -155,6 +174,11 @@ pub fn wider_texts() -> Vec<(&'static str, String)> {
         "stretch w1; delay[w1] r;", "stretch w1 = 10ns;", "duration w1 = 2 * 5ns;", "duration w1 = d + d;", "duration w1 = durationof({h r;});",
     ] {
         v.push(("wider", t.to_string()));
+    }
+    // every lexeme spelling where the grammar takes it (also spellings the lexer accepts
+    // beyond the official grammar, e.g. hardware qubits with digit separators)
+    for (t, _) in crate::props::c15::lexeme_context_texts() {
+        v.push(("lexeme_in_context", t));
     }
     v
 }
